@@ -624,7 +624,7 @@ class Impl:
 
     def c_toy_asm(self, a):
         text = unhex(a[0]) if a[0] != "." else ""
-        return load_outcome(lambda: self.toy.load_program(text), lambda: "ok " + toy_str(self.toy))
+        return load_outcome(lambda: self.toy.load_program(text), lambda: "ok")
 
     # -- formatter ------------------------------------------------------------------------------
     def c_fmt(self, a):
